@@ -15,7 +15,7 @@ CLAIMED = {
     ref='DESIGN.md section 4 C06, Appendix A.5, B.2'),
 
  'C02': dict(technique='Lean 4 proof (injectivity of the key pre-image in its components for all pairs of requests, tag separation, determinism; constants regenerated from the Rust sources) + byte-exact correspondence with the real hash_key/preprocessor_cache_entry_hash_key + metamorphic monitor',
-    text='encHash_components_inj, encHash_lang_sep, key_sound/key_complete (iff modulo an explicit hash collision), any_component_change_detected, redistribution_detected and the encPre versions are proved for all pairs of well-formed requests; language tags, CACHE_VERSION, FORMAT_VERSION and both allow-lists are regenerated from /repo on every run; the model pre-image is hashed with BLAKE3 by the harness and must equal the real key byte for byte on thousands of structured requests; the three aliasing defects are kernel-checked witnesses and known findings.',
+    text='encHash_components_inj, encHash_lang_sep, key_sound/key_complete (iff modulo an explicit hash collision), any_component_change_detected, redistribution_detected and the encPre versions are proved for all pairs of well-formed requests; language tags, CACHE_VERSION, FORMAT_VERSION and both allow-lists are regenerated from /repo on every run; the model pre-image is hashed with BLAKE3 by the harness and must equal the real key byte for byte on thousands of structured requests; langTags_distinct_except_cudaFE is decided over the regenerated tag table (after the fix of F-C02-d: the objc++ / objc++ header alias was real); the three remaining aliasing defects are kernel-checked witnesses and known findings.',
     note='Trusted: Lean kernel, translator for the constants, Model/Key.lean layout (tied byte-exactly), BLAKE3 is a parameter (collisions are an explicit disjunct). WF hypotheses: hex digests, NUL-free arguments < 2^56 bytes, payload not starting with 64 hex bytes / a tag extension.',
     ref='DESIGN.md section 4 C02, Appendix A.2, B.3, B.20'),
 
@@ -44,15 +44,15 @@ CLAIMED = {
     note='Trusted: Lean kernel, translator, Model/Args.lean, ServerL1.lean, Spec.lean (tied by h_args/h_l1), A1 (compilers are functions of the hashed components: tested by the system monitor, not proved). Known findings F-C01-b (lossy non-UTF-8 values), F-C01-d (server umask 027 changes output modes). Not modelled: -Xclang second pass.',
     ref='DESIGN.md section 4 C01, Appendix A.6, B.12, B.14, B.15'),
  'C03': dict(technique='Lean 4 proof (key determinism, allow-list filter, L0 repeat_hits over all histories, reopen keeps files, rustc key permutation invariance) + byte-exact key correspondence + end-to-end repeat monitor with server restarts',
-    text='key_deterministic, unrelated_env_irrelevant, repeat_hits (any history of other requests, faults, restarts), reopen_preserves and rust_key_perm are proved; real-server histories with reverts, output-path and unrelated-env changes and restarts must classify every repeated successful request as a hit with zero compiler runs.',
+    text='key_deterministic, unrelated_env_irrelevant, repeat_hits (any history of other requests, faults, restarts), reopen_preserves and rust_key_perm are proved; real-server histories with reverts, output-path and unrelated-env changes and restarts must classify every repeated successful request as a hit with zero compiler runs; after an entry was damaged behind the server (truncated, overwritten, deleted, flipped byte) the next request recompiles and stores and the one after that must hit again.',
     note='Trusted: Lean kernel, models tied by h_key / h_lru; the end-to-end monitor samples histories (gcc, clang; rustc in C05). Evictions excluded as in the statement.',
     ref='DESIGN.md section 4 C03, Appendix B.14'),
  'C09': dict(technique='Lean 4 proof (total decision functions over the finite fault alphabet, L0 over all fault histories, refinement L1 -> L0) + exhaustive enumeration of that alphabet on the real get_cached_or_compile + on-disk fault histories on the real server',
     text='storage_fault_total, failed_not_stored, store_outcome_irrelevant, ppsection_total (after the fix of F-C09-a), transparent_under_faults, failed_never_cached, repopulates and decide1_refines_estep are proved; the L1 table is enumerated exhaustively (144 + 14 cases) on the real code with a fault-injecting Storage and corrupted preprocessor-cache files, and real-server histories with on-disk faults must equal direct compiles.',
     note='Trusted: Lean kernel, Model/ServerL1.lean and Spec.lean (tied by h_l1). F-C09-a was a genuine defect repaired by a fix: commit.',
     ref='DESIGN.md section 4 C09, Appendix B.12, D.1, D.2'),
- 'C15': dict(technique='Lean 4 proof (L0: no history changes a cache whose stores are all refused; L1: store outcome irrelevant; L2: lookups and fitting start-up scans keep every file) + correspondence (h_l1, h_lru) + before/after digest listing of a real read-only cache',
-    text='readonly_unchanged, readonly_serves_and_compiles, store_outcome_irrelevant, get_keeps_files and reopen_keeps_files_partial are proved; a pre-populated real cache served under READ_ONLY is listed with content digests before and after mixed request histories (also with SCCACHE_RECACHE and preprocessor cache mode off) and every result is compared with a direct compile. Partial: a directory larger than its size limit is evicted at first use (F-C15-a, kernel-checked witness, open).',
+ 'C15': dict(technique='Lean 4 proof (L0: no history changes a cache whose stores are all refused; L1: store outcome irrelevant; L2: the start-up scan of a read-only cache and every sequence of lookups keep every file, for every configured size) + correspondence (h_l1, h_lru) + before/after digest listing of a real read-only cache',
+    text='readonly_unchanged, readonly_serves_and_compiles, store_outcome_irrelevant, get_keeps_files and readonly_session_keeps_files (after the fix of F-C15-a a read-only index is opened without a size limit) are proved; a pre-populated real cache served under READ_ONLY is listed with content digests before and after mixed request histories (also with SCCACHE_RECACHE and preprocessor cache mode off) and every result is compared with a direct compile. Size limits of 1 KiB and of 1.25 x the directory are among the variants. Open: rw_mode in the config file is dropped when a disk-cache variable is set (F-C15-b, kernel-checked witness).',
     note='Trusted: Lean kernel, models tied by h_l1 / h_lru; mtime touches are outside the statement.',
     ref='DESIGN.md section 4 C15, Appendix B.19'),
 
@@ -67,12 +67,12 @@ CLAIMED = {
     ref='DESIGN.md section 4 C16, Appendix B.5'),
 
  'C19': dict(technique='Lean 4 proof (confinement of the textual path arithmetic under explicit hypotheses, kernel-checked escape witness) + differential correspondence with the real join_suffix / std::path inside the sccache-dist crate + lexical-resolution monitor and toolchain-id probe on the real code',
-    text='confined_partial (any build root, any relative remainder without .. components) and stripped_suffix_is_relative are proved; the full statement is false on the code (escape_witness, finding F-C19-a: .. components and unvalidated toolchain ids), which the monitor reproduces on the real functions; the model of Path::join / join_suffix is diffed against the real code on thousands of adversarial path pairs. The sandboxed half (bubblewrap, overlayfs) cannot be run here: partial.',
-    note='Trusted: Lean kernel, Model/Paths.lean (tied by hook H6). Known finding F-C19-a. No bubblewrap/docker in this sandbox.',
+    text='confined_all / every_step_inside (whatever the repaired resolve_inside accepts lies under the job root, every intermediate directory included, for every client-supplied remainder), refused_only_when_leaving, toolchain_path_confined and overlay_dir_confined (for every client-supplied toolchain id, the file the toolchain cache uses and the directory the overlay builder creates are exactly <root>/<a>/<b>/<id> and <builder>/toolchains/<id>; every other id is refused before a path is built) are proved; the pinned escape witnesses of F-C19-a/b/c (all fixed) are kernel-checked; the path model is diffed against the real join_suffix / Path::join / resolve_inside on thousands of adversarial pairs, and a real scheduler + build server (bubblewrap replaced by a chroot stand-in) runs ~30 crafted jobs per round — cwd, outputs, tar members, symlinks, toolchain contents, crafted toolchain ids — with a host listing before and after each. Partial: bubblewrap\'s namespace isolation itself cannot run here; symbolic links are outside the Lean model.',
+    note='Trusted: Lean kernel, Model/Paths.lean + Proofs/Paths.lean definitions (tied by hook H6 and by the real build server). F-C19-a, F-C19-b and F-C19-c were genuine defects repaired by fix: commits.',
     ref='DESIGN.md section 4 C19, Appendix A.8, B.22'),
 
  'C12': dict(technique='Lean 4 proof (induction over swap histories of the memo model; key separation through C02) + differential correspondence on the real compiler_info + end-to-end swap histories against direct runs',
-    text='memo_fresh holds for every history of binaries at a path in which equal mtime implies equal contents, and different_binaries_different_keys (via the C02 theorems) separates results of different binaries; the real SccacheService::compiler_info is compared with the model (digest used per request, re-detection) on swap histories, and a live server is driven through copy- and symlink-swaps of wrapper compilers with every result compared to a direct run.',
+    text='memo_fresh holds for every history of binaries at a path in which equal mtime implies equal contents, and different_binaries_different_keys (via the C02 theorems) separates results of different binaries; the real SccacheService::compiler_info is compared with the model (digest used per request, re-detection) on swap histories, and a live server is driven through copy- and symlink-swaps of wrapper compilers with every result compared to a direct run; equal-length wrapper variants installed by rename and by in-place overwrite must get distinct keys from fresh servers of one process.',
     note='Trusted: Lean kernel, Model/Memo.lean (tied by h_memo). A replacement restoring an earlier mtime with new contents is outside the statement (kernel-checked witness, recorded).',
     ref='DESIGN.md section 4 C12, Appendix B.9'),
 
@@ -82,8 +82,8 @@ CLAIMED = {
     ref='DESIGN.md section 4 C11, Appendix B.7, D.4'),
 
  'C13': dict(technique='Lean 4 proof (total decision function of dist_or_local_compile over stages x error classes; exit-status round trip for all codes) + exhaustive enumeration of that alphabet on the real get_cached_or_compile with a scripted dist::Client + real scheduler scenarios',
-    text='fallback_total, other_failures_fall_back, remote_only_without_failure, cleanup_complete and exit_status_roundtrip (all codes 0..255, after the fix of F-C13-a) are proved; the real dist_or_local_compile is driven by an own dist::Client failing at every stage with every error class (20 cases, exhaustive over the model alphabet), and a real server with dist configured is run against a missing scheduler, a real scheduler without capacity and a wrong token. Partial: no real build server can run here (no bubblewrap/docker); the remote argument vector is not modelled.',
-    note='Trusted: Lean kernel, Model/Dist.lean (tied by h_dist). F-C13-a was a genuine defect repaired by a fix: commit.',
+    text='fallback_total, other_failures_fall_back, remote_only_without_failure, cleanup_complete and exit_status_roundtrip (all codes 0..255, after the fix of F-C13-a) are proved; the real dist_or_local_compile is driven by an own dist::Client failing at every stage with every error class (20 cases, exhaustive over the model alphabet), too_small_reported_every_time (ClientTcM: over every request history with restarts, each request whose packaged toolchain does not fit the local toolchain cache is reported) and dist_command_shape (the argument vector that travels) are proved too; a real server with dist configured is run against a missing scheduler, a real scheduler without capacity, a wrong token and a toolchain cache that is too small, and against a real scheduler + build server (bubblewrap replaced by a chroot stand-in) with request histories compared to direct compiles. Partial: bubblewrap / docker isolation itself cannot run here.',
+    note='Trusted: Lean kernel, Model/Dist.lean (tied by h_dist), Model/ClientTc.lean (tied at statement level by the system scenario). F-C13-a was a genuine defect repaired by a fix: commit; F-C13-b is open.',
     ref='DESIGN.md section 4 C13, Appendix B.8'),
 
  'C10': dict(technique='Lean 4 proof (the inode-level two-phase-store invariant of C06 read for output extraction: every interleaving of extraction and reader steps) + differential correspondence of the real extract_objects expressed as model actions + descriptor/inode/hard-link monitors',
